@@ -20,6 +20,7 @@ import GherkinVerif.Spec.LayoutChecks2
 import GherkinVerif.Spec.LayoutChecks3
 import GherkinVerif.Spec.LayoutChecks4
 import GherkinVerif.Spec.LayoutChecks5
+import GherkinVerif.Spec.RecoverChecks
 open GV
 
 namespace Driver
@@ -113,6 +114,15 @@ def handle (op : String) (as : List (List Nat)) : J :=
               ((List.range (n + 1)).filter fun k => Spec.commentLineOk2B D T (flag as 0) μ 0 src k c).map J.num)),
             -- a sixth argument: a variant in which doc strings move as blocks (Props/C16Doc7.lean)
             ("indent3", .bool (!(arg as 5).isEmpty && Spec.indentBlockOkB D T (flag as 0) μ 0 (arg as 5) src))]
+  | "recoverok" =>
+    -- default dialect | src' : the 0-based positions k such that line k+1 of src' is an unexpected line to which
+    -- `C14_unexpected_line_check` applies (Spec/RecoverChecks.lean: unexpectedLineOkB), collecting mode
+    match MState.init D (arg as 0) with
+    | none => .obj [("crash", .str (lit "no such default dialect"))]
+    | some μ =>
+      let src' := arg as 1
+      let n := (splitLines src').length
+      .obj [("skippable", .arr (((List.range n).filter fun k => Spec.unexpectedLineOkB D T μ 0 src' k).map J.num))]
   | "textaccepts" =>
     -- default dialect | src : text-level acceptor (Spec/TextLevel.lean) and the intrinsic kinds along the run
     match MState.init D (arg as 0) with
